@@ -83,7 +83,7 @@ Section MainV1.
      loaded is the migration of the shadow value that agrees with [c1] *)
   Theorem v1_token_accepted : forall k st c1 j issuer,
     shadow_of k = Some st ->
-    has_type (sch1_of k) c1 = true -> scopes_ok (sch1_of k) c1 = true ->
+    has_type (sch1_of k) c1 = true ->
     getp (sch1_of k) ["type"] c1 = Some (VStr (kind_name k)) ->
     getp (sch1_of k) ["iss"] c1 = Some (VStr issuer) -> issuer <> "" ->
     enc (sch1_of k) c1 = Some j ->
@@ -95,13 +95,13 @@ Section MainV1.
       dec st j (preset_v1 k) = Some w /\ ag st (sch1_of k) (preset_v1 k) w c1 /\
       p_loaded jparse (jprint j) k 1 = Some (migrate k w).
   Proof.
-    intros k st c1 j issuer Hs Ht Hsc Gty Giss Hiss He Hver Hrole.
+    intros k st c1 j issuer Hs Ht Gty Giss Hiss He Hver Hrole. pose proof (sch1_scopes_ok k st c1 Hs) as Hsc.
     assert (Hk : k = KOperator \/ k = KAccount \/ k = KUser \/ k = KActivation)
       by (destruct k; simpl in Hs; try discriminate Hs; auto).
     destruct (rd_small k st Hs) as (Hr1 & Hr2 & Hp1 & Hp2 & Hw1 & Hw2).
     destruct (rd_generated k st Hs) as (_ & _ & _ & Hwf & Hen & Hks).
     pose proof (W_intro _ _ Hwf Hen Hks Ht Hsc) as HW.
-    destruct (v1_reaches_shadow k st c1 j Hs Ht Hsc He) as [w [Hd [Ha _]]].
+    destruct (v1_reaches_shadow k st c1 j Hs Ht He) as [w [Hd [Ha _]]].
     destruct (cross_decode sch_identifier (sch1_of k) (zero_val sch_identifier) c1 j Hr1 (pre_ok_zero _) HW He) as [wi [Hdi Hai]].
     destruct (cross_decode sch_claims_data (sch1_of k) (zero_val sch_claims_data) c1 j Hr2 (pre_ok_zero _) HW He) as [wc [Hdc Hac]].
     assert (Kne : kind_name k <> "") by (destruct k; discriminate).
